@@ -3,6 +3,7 @@ from .common import *
 from .codewrite import *
 from .lifecycle import *
 from ..facts import RAW_WRITE_FNS
+from . import scans
 
 DECIDED = ("R3.1 who-may-write: every raw-memory write in the crate (raw copy/write primitives, stores through raw pointers, inline asm, foreign "
            "calls) is enumerated on every analysed target and must belong to the allow-list {the code copy, the byte reader's copy into its own "
@@ -24,38 +25,7 @@ ASM_ALLOWED = ("dsb sy", "isb")
 
 
 def static_write_sites(tm):
-    """(fn path, kind, name, term/stmt) for every raw write construct in the crate's MIR."""
-    out = []
-    for b in tm.facts.fn_bodies():
-        ltys = b["locals"]
-        for name, foreign, local, t in tm.facts.callees_of(b):
-            if name in RAW_WRITE_FNS:
-                out.append((b["path"], "rawfn", name, t))
-            elif name == "<asm>":
-                out.append((b["path"], "asm", t["template"], t))
-            elif foreign:
-                out.append((b["path"], "ffi", name, t))
-            elif name == "<indirect>":
-                out.append((b["path"], "indirect", name, t))
-        for blk in b["blocks"]:
-            for st in blk["stmts"]:
-                if st["k"] == "assign":
-                    pl = st["place"]
-                    # store through a raw pointer: a deref projection whose base local has raw-pointer type
-                    cur_ty = ltys[pl["l"]]["ty"]
-                    for pe in pl["p"]:
-                        if pe["k"] == "deref":
-                            if cur_ty and cur_ty.get("k") == "ptr":
-                                out.append((b["path"], "rawstore", "store through %s" % cur_ty["s"], st))
-                                break
-                            cur_ty = cur_ty.get("inner") if cur_ty else None
-                        elif pe["k"] == "field":
-                            cur_ty = pe["ty"]
-                        else:
-                            cur_ty = cur_ty.get("elem") if cur_ty else None
-                elif st["k"] == "copy_nonoverlapping":
-                    out.append((b["path"], "rawfn", "intrinsic copy_nonoverlapping", st))
-    return out
+    return scans.static_write_sites(tm.facts)
 
 
 def run(ck, models, tier):
@@ -148,3 +118,5 @@ def run(ck, models, tier):
         for key, m in list(tm.machines.items()):
             for f in m.entered:
                 ck.analysed_fn(tm.target, f)
+    for kind in ("rawstore", "rawfn", "ffi", "indirect", "asm"):
+        scans.control(ck, ck.ws, "R3.1", "raw-write-construct/%s" % kind, lambda f, k=kind: [x for x in scans.static_write_sites(f) if x[1] == k])
